@@ -50,7 +50,8 @@ fn main() {
                 println!("W\t{}\t{}", term, hex(&bytes));
                 println!("N\t{}\t{}", term, read_result_term(&bytes));
                 // direct oracle, no model: reading back never fails and a second save is byte-identical
-                match deserialize(&bytes) {
+                let b2 = bytes.clone();
+                match guarded(move || deserialize(&b2)).unwrap_or(Err(aelys_bytecode::asm::BinaryError::UnexpectedEof)) {
                     Ok((g, h2)) => {
                         let again = serialize(&g, &h2);
                         if again != bytes {
